@@ -140,3 +140,33 @@ Definition wire_tfhd (h : tfhd) : tfhd :=
          (if tf_has_bdo h then tf_bdo h else 0) (if tf_has_sdi h then tf_sdi h else 0)
          (if tf_has_ddur h then tf_ddur h else 0) (if tf_has_dsize h then tf_dsize h else 0)
          (if tf_has_dflags h then tf_dflags h else 0).
+
+(* ------------------------------------------------------------------ the whole moof (no extra children) *)
+(* TfdtBox.EncodeSW: version 0 writes uint32(baseMediaDecodeTime) *)
+Definition enc_tfdt (d : tfdt) : list N :=
+  be32 (tfdt_size d) ++ [116; 102; 100; 116] ++ be32 (u32 (td_version d * 16777216)) ++
+  (if td_version d =? 0 then be32 (u32 (td_base d)) else be64 (u64 (td_base d))).
+
+Definition enc_mfhd (seq : N) : list N := be32 16 ++ [109; 102; 104; 100] ++ be32 0 ++ be32 seq.
+
+Fixpoint enc_truns (l : list trun) : res (list N) :=
+  match l with
+  | [] => Ok []
+  | r :: rest => do a <- enc_trun r; do b <- enc_truns rest; Ok (a ++ b)
+  end.
+
+(* children order of a created traf: tfhd, tfdt, truns (valid when the traf has no other children) *)
+Definition enc_traf (t : traf) : res (list N) :=
+  do tr <- enc_truns (tf_truns t);
+  Ok (be32 (traf_size t) ++ [116; 114; 97; 102] ++ enc_tfhd (tf_hd t) ++ enc_tfdt (tf_dt t) ++ tr).
+
+Fixpoint enc_trafs (l : list traf) : res (list N) :=
+  match l with
+  | [] => Ok []
+  | t :: rest => do a <- enc_traf t; do b <- enc_trafs rest; Ok (a ++ b)
+  end.
+
+(* MoofBox.Encode for a moof whose children are mfhd and the trafs *)
+Definition enc_moof (seq : N) (fr : frag) : res (list N) :=
+  do ts <- enc_trafs (fr_trafs fr);
+  Ok (be32 (moof_size fr) ++ [109; 111; 111; 102] ++ enc_mfhd seq ++ ts).
